@@ -32,14 +32,17 @@ def build(shape, cls_kind, json_only=True):
     def rec(sh, parent):
         i = len(nodes)
         at = dict(copy.deepcopy(ATTRS[i % len(ATTRS)]))
-        at["idx"] = i
+        if i % 3 != 1 or cls_kind == "Node":
+            at["idx"] = i          # some nodes carry no attribute at all (an attribute-less leaf exports as {})
+        else:
+            at = {}
         if cls_kind == "Node":
             n = Node("nm%d" % i, parent=parent, **{k: v for k, v in at.items() if k != "name"})
         elif cls_kind == "User":
             n = U(parent=parent, **at)
         else:
             n = AnyNode(parent=parent, **at)
-        if not json_only:
+        if not json_only and at:
             n.obj = (1, 2)
         nodes.append(n)
         for c in sh:
@@ -59,6 +62,10 @@ def ref_export(n, level, maxlevel, childiter, dictcls, attriter):
         if kids:
             d["children"] = kids
     return d
+
+
+def count(n):
+    return 1 + sum(count(c) for c in n.children)
 
 
 def iso(a, b, nodecls):
@@ -123,19 +130,46 @@ def run_case(c):
             e = iso(start, t, cls)
             if e:
                 return "import_(export(t)) not isomorphic: " + e
+            if count(t) != count(start):
+                return "import_ changed the number of nodes: %d -> %d" % (count(start), count(t))
             back = DictExporter(dictcls=dc).export(t)
             if strip_empty(back) != strip_empty(got):
                 return "export(import_(d)) differs from d"
-            d2 = copy.deepcopy(got)
-            d2.setdefault("children", [])
+            # dictionaries with explicit empty 'children' lists at every leaf, 'children' not being the last key
+            def with_empty(x):
+                y = OrderedDict()
+                y["children"] = [with_empty(k) for k in x.get("children", [])]
+                for k, v in x.items():
+                    if k != "children":
+                        y[k] = v
+                return y
+            d2 = with_empty(got)
+            d2_before = copy.deepcopy(d2)
             t2 = DictImporter(nodecls=cls).import_(d2)
+
+            def same_ordered(a, b):
+                if list(a.keys()) != list(b.keys()):
+                    return False
+                return all((same_ordered_list(a[k], b[k]) if k == "children" else a[k] == b[k]) for k in a)
+
+            def same_ordered_list(a, b):
+                return len(a) == len(b) and all(same_ordered(x, y) for x, y in zip(a, b))
+            if not same_ordered(d2, d2_before):
+                return "import_ modified its argument (empty 'children' entries / key order)"
             if strip_empty(DictExporter().export(t2)) != strip_empty(dict(got)):
                 return "empty 'children' list not tolerated"
         return None
     # C11
     opts = [{}, {"indent": 2, "sort_keys": True}, {"ensure_ascii": False, "separators": (",", ":")}][c["opts"]]
+    # an earlier, unrelated exporter with a small maxlevel must not influence this one
+    JsonExporter(maxlevel=1).export(nodes[0])
     de = DictExporter(childiter=ci) if c["childiter"] != "list" else None
-    je = JsonExporter(dictexporter=de, maxlevel=ml, **opts)
+    jkw = dict(opts)
+    if de is not None:
+        jkw["dictexporter"] = de
+    if ml is not None:
+        jkw["maxlevel"] = ml
+    je = JsonExporter(**jkw)
     text = je.export(start)
     ref_de = DictExporter(childiter=ci)
     if ml is not None:
@@ -152,6 +186,8 @@ def run_case(c):
         for t in (t1, t2):
             if json.dumps(DictExporter().export(t), sort_keys=True) != json.dumps(ref_de.export(start), sort_keys=True):
                 return "import_(export(t)) is not isomorphic to t"
+            if ml is None and c["childiter"] == "list" and count(t) != count(start):
+                return "round trip changed the number of nodes: %d -> %d" % (count(start), count(t))
     return None
 
 
@@ -161,7 +197,7 @@ def search(spec):
     for cls in ("AnyNode", "Node", "User"):
         for n in range(1, spec.get("nodes", 4) + 1):
             for sh in Q.shapes(n):
-                for start in ([0, n - 1] if n > 1 else [0]):
+                for start in range(n):
                     for ml in [None] + list(range(0, n + 1)):
                         for ci in ("list", "reversed"):
                             for ai in (("none", "sorted", "drop_") if prop == "C10" else ("none",)):
